@@ -97,3 +97,16 @@ Proof.
   intros H2 H16. destruct len2 as [|a [|b [|]]]; simpl in H2; try lia. cbn [skipn app].
   rewrite <- H16. apply firstn_app_exact_l.
 Qed.
+
+Lemma wf_bytes_firstn n l : wf_bytes l = true -> wf_bytes (firstn n l) = true.
+Proof.
+  revert n. induction l as [|x l IH]; intros [|n] H; simpl; auto.
+  simpl in H. apply andb_true_iff in H as [Hx Hl]. rewrite Hx. simpl. apply IH. exact Hl.
+Qed.
+
+Lemma wf_bytes_skipn n l : wf_bytes l = true -> wf_bytes (skipn n l) = true.
+Proof.
+  revert n. induction l as [|x l IH]; intros [|n] H; simpl; auto.
+  simpl in H. apply andb_true_iff in H as [Hx Hl]. apply IH. exact Hl.
+Qed.
+
